@@ -3,6 +3,7 @@ CONSTANTS
   InstFS <- MCInstFS
   Spell <- MCSpell
   LoadFix = TRUE
+  LoadReach <- AllPlacements
   InstSet = {1, 2, 3, 4, 5, 6, 7}
   SpellSet = {1, 2, 3, 4, 5, 6, 7, 8, 11, 12, 13, 14, 15, 16, 17, 18}
   MaxUnits = 3
